@@ -298,3 +298,52 @@ Proof.
   destruct (N.lt_ge_cases j (cs_loads st)) as [H1|H1]; [left; apply B; lia|].
   destruct (N.lt_ge_cases j (cs_loads st')) as [H2|H2]; [right; apply C; lia|left; apply B; lia].
 Qed.
+
+(* ================= C11: opening under a schedule ================= *)
+Lemma read_exact_src_eq f pos n sched : benign sched -> pos + n <= len f ->
+  read_exact_src f pos n sched = Trailer.read_exact_at f pos n.
+Proof.
+  intros Hb Hle. unfold read_exact_src, Trailer.read_exact_at.
+  destruct (N.ltb_spec (len f) (pos + n)); [lia|].
+  destruct (read_exact_spec (S (length sched + N.to_nat n)) (mk_src f pos sched) n []) as (s' & E & _ & Hp & _).
+  - exact Hb.
+  - cbn [sr_sched]. lia.
+  - unfold avail. cbn [sr_pos sr_data]. rewrite len_skipnN. lia.
+  - rewrite E. cbn [app]. unfold avail. cbn [sr_pos sr_data] in *. rewrite Hp. reflexivity.
+Qed.
+
+Lemma read_exact_at_pos f pos n b p : Trailer.read_exact_at f pos n = Done (b, p) -> p = pos + n /\ pos + n <= len f.
+Proof. unfold Trailer.read_exact_at. destruct (N.ltb_spec (len f) (pos + n)); [discriminate|]. intro E. injection E as _ <-. lia. Qed.
+
+Theorem open_meta_sched_eq scheds f : (forall i, benign (scheds i)) -> open_meta_sched scheds f = Trailer.open_meta f.
+Proof.
+  intro Hb. unfold open_meta_sched, Trailer.open_meta, Trailer.seek_end.
+  destruct (N.ltb_spec (len f) 4) as [H4|H4]; cbn [bind]; [reflexivity|].
+  rewrite (read_exact_src_eq f (len f - 4) 4 (scheds 0) (Hb 0) ltac:(lia)).
+  destruct (Trailer.read_exact_at f (len f - 4) 4) as [[b0 p0]| |]; cbn [bind fst snd]; try reflexivity.
+  destruct (le_decode b0 =? Consts.MAGIC_V1).
+  - change (Consts.METADATA_V1_SIZE + 4) with 21.
+    destruct (N.ltb_spec (len f) 21) as [H21|H21]; cbn [bind]; [reflexivity|].
+    rewrite (read_exact_src_eq f (len f - 21) 8 (scheds 1) (Hb 1) ltac:(lia)).
+    destruct (Trailer.read_exact_at f (len f - 21) 8) as [[b1 p1]| |] eqn:E1; cbn [bind fst snd]; try reflexivity.
+    apply read_exact_at_pos in E1. destruct E1 as [-> _].
+    rewrite (read_exact_src_eq f (len f - 21 + 8) 1 (scheds 2) (Hb 2) ltac:(lia)).
+    destruct (Trailer.read_exact_at f (len f - 21 + 8) 1) as [[b2 p2]| |] eqn:E2; cbn [bind fst snd]; try reflexivity.
+    apply read_exact_at_pos in E2. destruct E2 as [-> _].
+    destruct (Trailer.codec_known _); [|reflexivity].
+    rewrite (read_exact_src_eq f (len f - 21 + 8 + 1) 8 (scheds 3) (Hb 3) ltac:(lia)). reflexivity.
+  - destruct (le_decode b0 =? Consts.MAGIC_V2); [|reflexivity].
+    change (Consts.METADATA_V2_SIZE + 4) with 22.
+    destruct (N.ltb_spec (len f) 22) as [H22|H22]; cbn [bind]; [reflexivity|].
+    rewrite (read_exact_src_eq f (len f - 22) 8 (scheds 1) (Hb 1) ltac:(lia)).
+    destruct (Trailer.read_exact_at f (len f - 22) 8) as [[b1 p1]| |] eqn:E1; cbn [bind fst snd]; try reflexivity.
+    apply read_exact_at_pos in E1. destruct E1 as [-> _].
+    rewrite (read_exact_src_eq f (len f - 22 + 8) 1 (scheds 2) (Hb 2) ltac:(lia)).
+    destruct (Trailer.read_exact_at f (len f - 22 + 8) 1) as [[b2 p2]| |] eqn:E2; cbn [bind fst snd]; try reflexivity.
+    apply read_exact_at_pos in E2. destruct E2 as [-> _].
+    destruct (Trailer.codec_known _); [|reflexivity].
+    rewrite (read_exact_src_eq f (len f - 22 + 8 + 1) 8 (scheds 3) (Hb 3) ltac:(lia)).
+    destruct (Trailer.read_exact_at f (len f - 22 + 8 + 1) 8) as [[b3 p3]| |] eqn:E3; cbn [bind fst snd]; try reflexivity.
+    apply read_exact_at_pos in E3. destruct E3 as [-> _].
+    rewrite (read_exact_src_eq f (len f - 22 + 8 + 1 + 8) 1 (scheds 4) (Hb 4) ltac:(lia)). reflexivity.
+Qed.
